@@ -28,6 +28,10 @@ Theorem per_producer_order_preserved : forall pl c n ls, let s := reach pl c n l
 Proof. exact PushQFacts.reach_order. Qed.
 Print Assumptions per_producer_order_preserved.
 
+(* The engine time of a cycle is the ghost field [now]; [LCBegin t] is enabled only for now < t: that the
+   real-time loop advances strictly (advance_realtime's max(wall, last + MIN_TD)) is C17's theorem
+   rt_cycle_times_strict (Props/C17.v, RTLoop.v), reused here as the step's guard, not re-proved; the
+   acceptor checks it on every recorded run (clause ok_times, oracle kind delivery_time_not_increasing). *)
 (* Each value is delivered exactly once, each delivery in its own engine cycle, cycle times strictly
    increasing; under the queue policy a cycle delivers one value, a burst / conflated batch is non-empty. *)
 Theorem delivered_once_each_in_own_cycle : forall pl c n ls, let s := reach pl c n ls in
